@@ -18,12 +18,11 @@ def registry():
     from . import rel_props
     reg = {}
     reg.update(rel_props.CHECKS)
-    for modname in ("sm_props", "pipe_props", "expr_props", "misc_props"):
-        try:
-            mod = __import__("harness." + modname, fromlist=["CHECKS"])
-            reg.update(mod.CHECKS)
-        except ImportError:
-            pass
+    for modname in ("sm_props", "rel_more", "expr_props", "misc_props"):
+        if not os.path.exists(os.path.join(os.path.dirname(__file__), modname + ".py")):
+            continue
+        mod = __import__("harness." + modname, fromlist=["CHECKS"])
+        reg.update(mod.CHECKS)
     return reg
 
 
